@@ -211,6 +211,7 @@ def extras(ctx):
   special_sweep(ctx)
   primed_sweep(ctx)
   sharing_sweep(ctx)
+  placeholder_sweep(ctx)
 
 # ----------------------------------------------------------------------------------------------------
 # Oracle-only sweeps over values the SymCore model does not contain.
@@ -744,6 +745,93 @@ def sharing_sweep(ctx):
                                     'leaf is shared with the original, a change through one place is seen through exactly the sharing places; shallow copies hold the original\'s objects')
   ctx.log('sharing sweep (oracle only): %d cases' % n)
 
+# ----------------------------------------------------------------------------------------------------
+# Lists in the 'placeholders pending' state (oracle only; the same patterns are also corpus cases of the model correspondence): 1-3 elements replaced by
+# MISSING_VALUE with the notification skipped -- every subset of the positions of a 5-element list, i.e. adjacent pairs / triples at head, middle and
+# tail, non-adjacent, trailing -- by `l[i] = MISSING` under notify_on_change(False) or by rebind(..., skip_notification=True); copied at once by every
+# route, standalone and inside Dict / List / Object (depth 1 and 2).  pg.eq, the raw layout (which index holds a placeholder / which element), the
+# paths of the elements, the clone oracle of the histories, and independence of the deferred removal (each copy compacts on its own notification).
+def _raw_layout(l):
+  P = D.pg()
+  return [('M' if (not D.is_sym(v) and P.MISSING_VALUE == v) else (type(v).__name__, str(v.sym_path.key)) if D.is_sym(v) else repr(v)) for v in l.sym_values()]
+
+def placeholder_cases():
+  import itertools
+  for r in (1, 2, 3):
+    for S in itertools.combinations(range(5), r):
+      for host in ('standalone', 'in-dict', 'in-list', 'in-object', 'depth-2'):
+        for method in ('setitem', 'rebind'):
+          for how in list(DEEP_COPIES) + list(SHALLOW_COPIES) + ['List.copy()']:
+            yield dict(kind='placeholders', holes=list(S), host=host, method=method, how=how)
+
+def placeholder_probe(c):
+  P = D.pg()
+  A, B, C = D.classes()
+  l = P.List([P.Dict(a=0), 1, P.Dict(b=2), D.Opq(3), P.Dict(c=[4])])
+  root = {'standalone': lambda: l, 'in-dict': lambda: P.Dict(h=l, k=1), 'in-list': lambda: P.List([0, l]), 'in-object': lambda: B(x=l, y=1),
+          'depth-2': lambda: P.Dict(o=B(x=P.Dict(m=l)))}[c['host']]()
+  find = {'standalone': lambda r: r, 'in-dict': lambda r: r.h, 'in-list': lambda r: r[1], 'in-object': lambda r: r.x, 'depth-2': lambda r: r.o.x.m}[c['host']]
+  if c['method'] == 'setitem':
+    with P.notify_on_change(False):
+      for i in c['holes']: l[i] = P.MISSING_VALUE
+  else:
+    l.rebind({i: P.MISSING_VALUE for i in c['holes']}, skip_notification=True)
+  how = c['how']
+  if how == 'List.copy()':
+    if c['host'] != 'standalone': return []
+    deep, cp = False, (lambda v: v.copy())
+  else:
+    deep = how in DEEP_COPIES
+    cp = (DEEP_COPIES if deep else SHALLOW_COPIES)[how]
+  dk = 'deep copy' if deep else 'shallow copy'
+  pat = 'adjacent' if any(b - a == 1 for a, b in zip(c['holes'], c['holes'][1:])) else 'single' if len(c['holes']) == 1 else 'non-adjacent'
+  out = []
+  la0 = _raw_layout(l)
+  b = cp(root)
+  lb = find(b)
+  if _raw_layout(l) != la0: out.append(('C07/original-modified/%s/placeholders-pending' % dk, 'copying changed the original list'))
+  if not P.eq(root, b):
+    out.append(('C07/not-equal/%s/placeholders-%s' % (dk, pat), '%s of a list with pending placeholders at %s (%s, %s): pg.eq(original, copy) is False: original %s, copy %s' % (
+        how, c['holes'], c['host'], c['method'], la0, _raw_layout(lb))))
+  elif _raw_layout(lb) != la0:
+    out.append(('C07/copy-differs/%s/placeholders-%s' % (dk, pat), '%s of a list with pending placeholders at %s: layout %s, original %s' % (how, c['holes'], _raw_layout(lb), la0)))
+  if how != 'List.copy()':
+    for h in check_clone(None, root, b, deep, how):
+      if h[0] != 'not-equal':
+        out.append(('C07/%s/%s/placeholders-pending' % (h[0], dk), '%s: %s' % (how, h[1])))
+  if not out:
+    # the deferred removal is each copy's own
+    lb.append(7)
+    if _raw_layout(l) != la0:
+      out.append(('C07/mutation-visible/%s/copy-to-original-placeholders' % dk, 'the notification of the copy changed the original list'))
+    exp = [x for x in la0 if x != 'M']
+    got = _raw_layout(lb)[:-1]
+    if [x if isinstance(x, str) else x[0] for x in got] != [x if isinstance(x, str) else x[0] for x in exp]:
+      out.append(('C07/copy-differs/%s/placeholders-after-notification' % dk, 'after its next notification the copy holds %s, expected the kept elements %s' % (got, exp)))
+    t = D.Impl(); t.roots.extend([b, root])
+    for clause, what in C01.check_forest(t):
+      out.append(('C07/copy-not-wellformed/%s/placeholders-after-notification' % dk, '%s %s' % (clause, what))); break
+    l.append(8)
+    if _raw_layout(lb)[:-1] != got:
+      out.append(('C07/mutation-visible/%s/original-to-copy-placeholders' % dk, 'the notification of the original changed the copy'))
+  return out
+
+def placeholder_sweep(ctx):
+  import time
+  t0 = time.time()
+  n = 0
+  for c in placeholder_cases():
+    if c['how'] == 'List.copy()' and c['host'] != 'standalone':
+      continue
+    n += 1
+    ctx.evaluations += 1
+    for sig, what in placeholder_probe(c):
+      ctx.hit(sig, what, c)
+  ctx.extra['placeholder_sweep'] = dict(oracle_only=True, cases=n, what='every subset of 1-3 positions of a 5-element list replaced by MISSING_VALUE with the notification skipped (setitem under notify_on_change(False) / '
+                                        'rebind(skip_notification=True)), copied at once by every route, standalone and inside Dict / List / Object / depth 2: pg.eq, raw layout, paths, clone oracle, and the '
+                                        'deferred removal of each copy on its own next notification')
+  ctx.log('placeholder sweep (oracle only): %d cases in %.1fs' % (n, time.time() - t0))
+
 # clones made inside scopes keep the flags of every node (typed children included: they are re-applied by the constructor)
 _TYPED = None
 def typed_classes():
@@ -830,6 +918,8 @@ def replay(ctx, rp):
     return not primed_probe(rp['case'])
   if rp.get('case', {}).get('kind') == 'sharing':
     return not sharing_probe(rp['case'])
+  if rp.get('case', {}).get('kind') == 'placeholders':
+    return not placeholder_probe(rp['case'])
   return D.replay_property(ctx, rp, Oracle)
 
 # ----------------------------------------------------------------------------------------------------
